@@ -43,3 +43,12 @@ package dlog
 //@ func (*DLog).FatalPanic
 //@   trusted
 //@   noreturn
+
+// ---- message printing (C16) ---------------------------------------------------
+//@ type DLog invariant [logger] !isnil(self.logger)
+
+// Raw prints the message: uncoloured as is, or coloured such that the plain
+// projection of what is printed equals the message.
+//@ func (*DLog).Raw
+//@   assigns nothing
+//@   ensures [returns-message] result == message
